@@ -137,6 +137,16 @@ def swarm_jobs(seeds, n, corpus, label="swarm"):
                 opts[name] = rng.choice(NUM_OPTS[name])
                 add += "  %s: %s\n" % (name, opts[name])
             files[yaml] = files[yaml].replace("\noptions:\n", "\noptions:\n" + add, 1)
+        if "\nsplicer:\n" in files[yaml] and rng.random() < 0.6:
+            # the same splicer files, plus explicit splicer_code nested under sections the files also use
+            files = dict(files)
+            tag = "sw%d" % i
+            files[yaml] = files[yaml] + (
+                "\nsplicer_code:\n  c:\n    function:\n      injected_%s:\n      - // injected by %s\n"
+                "    C_definitions:\n    - // file level code of %s\n"
+                "  f:\n    function:\n      injected_%s:\n      - ! injected by %s\n"
+                "    additional_functions:\n    - ! extra functions of %s\n") % (tag, tag, tag, tag, tag, tag)
+            opts["splicer_code"] = tag
         out.append(Job("%s/%d-%s" % (label, i, base.id.split("/")[1]), files, argv,
                        sorted(set(mk)),
                        meta={"source": label, "yaml": base.meta["yaml"], "dirpat": pat,
@@ -183,4 +193,25 @@ def poison_jobs(seeds, n, corpus):
         out.append(Job("poison/%d-%s-%s" % (i, kind, base.id.split("/")[1]), files, base.argv,
                        base.mkdirs, meta={"source": "poison", "kind": kind,
                                           "yaml": base.meta["yaml"]}))
+    return out
+
+
+def nopath_api_jobs():
+    """Libraries meant for shroud.create_wrapper(filename, outdir) *without* a path: the splicer
+    files listed in the YAML are found relative to the current directory, which is the YAML's own
+    directory.  Two such libraries live in different directories and name their splicer files alike."""
+    out = []
+    for tag, d in (("one", "/sim/srcA"), ("two", "/sim/srcB"), ("three", "/sim/srcC")):
+        yaml_text = ("copyright:\n- library %(t)s\n-\nlibrary: np%(t)s\ncxx_header: np%(t)s.hpp\n"
+                     "options:\n  debug: True\nsplicer:\n  c:\n  - usercode.c\n  f:\n  - usercode.f\n"
+                     "declarations:\n- decl: int func_%(t)s(int arg)\n- decl: void shared_name(double x)\n") % {"t": tag}
+        csp = ("// splicer begin C_definitions\n// C definitions of %(t)s\n// splicer end C_definitions\n"
+               "// splicer begin function.shared_name\n// body from %(t)s\nshared_name(x);\n"
+               "// splicer end function.shared_name\n") % {"t": tag}
+        fsp = ("! splicer begin additional_functions\n! functions of %(t)s\n! splicer end additional_functions\n") % {"t": tag}
+        files = {d + "/np%s.yaml" % tag: yaml_text, d + "/usercode.c": csp, d + "/usercode.f": fsp}
+        fn = d + "/np%s.yaml" % tag
+        out.append(Job("apinp/" + tag, files, ["--outdir", OUT, fn], [OUT, d], cwd=d,
+                       api={"filename": fn, "outdir": OUT, "path": None},
+                       meta={"source": "apinp", "yaml": "np" + tag, "cwd_free": False}))
     return out
